@@ -317,7 +317,13 @@ struct ScaledUnit : Unit {
                   "Can only scale by a Magnitude<...> type");
     using Dim = detail::DimT<Unit>;
     using Mag = MagProductT<detail::MagT<Unit>, ScaleFactor>;
+
+    // We must not let a scaled unit (or a named unit that derives from it without supplying its
+    // own label) inherit the label of the unit it scales: it is a _different_ unit.
+    static constexpr auto &label = DefaultUnitLabel<void>::value;
 };
+template <typename Unit, typename ScaleFactor>
+constexpr decltype(DefaultUnitLabel<void>::value) &ScaledUnit<Unit, ScaleFactor>::label;
 
 // Type template to hold the product of powers of Units.
 template <typename... UnitPows>
